@@ -186,7 +186,12 @@ Definition prop_session (ob : obs) (se : session) : list string :=
     | p :: _ => if ctotal && negb keymode then page_total p =? N.of_nat (List.length want) else true
     | [] => false
     end in
-  if all_ok && items_eqb got want then tag total_ok "prop:count_total"
+  (* a page that announces a next page must be full *)
+  let eff := if limit =? 0 then default_limit else limit in
+  let full_ok :=
+    forallb (fun p => let '(Pg _ _ _ items next _) := p in
+                      is_nil next || (N.of_nat (List.length items) =? eff)) pages in
+  if all_ok && items_eqb got want then tag total_ok "prop:count_total" ++ tag full_ok "prop:page_with_next_key_is_full"
   else
     match ep, reverse, rev want with
     | EPaySrc _, true, last :: rest =>
